@@ -376,6 +376,8 @@ func P4() []*Program {
 		{"initialism", "ID"},
 		// a name that contains a word of the language
 		{"typeword", "zcharLegacy"},
+		// a name without a single letter or digit (case conversions reduce it to nothing)
+		{"underscores", "__"},
 	}
 	var out []*Program
 	for _, s := range shapes {
